@@ -276,6 +276,18 @@ Inst decode(Tape &t, bool thorough) {
       break;
     }
   }
+  // decided last: huge, nearly uniform capacities and demands (the shape the density legalizer
+  // produces for a few macros over equal bins): remainders of 1..3 units next to quantities of 1e9
+  if (t.next() % 4 == 1) {
+    ll C = 1000000 + (ll)(t.next() % 1070000000u);
+    ll totC = 0, totD = 0;
+    for (int i = 0; i < ns; ++i) in.cap[i] = C + (ll)(t.next() % 3), totC += in.cap[i];
+    double ratio = 0.7 + (double)(t.next() % 76) / 100.0;
+    ll D = std::max<ll>(1, std::min<ll>((ll)((double)totC * ratio / nd), 2147483000LL));
+    for (int j = 0; j < nd; ++j) in.dem[j] = D + (ll)(t.next() % 3), totD += in.dem[j];
+    in.needIncrease = totD > totC;
+    in.capClass = in.needIncrease ? "near-uniform huge, short+increaseCapacity" : "near-uniform huge, slack";
+  }
   return in;
 }
 }  // namespace
